@@ -277,5 +277,13 @@ class FeFamily(Family):
                 if r == "ok":
                     e["ok"] += 1
 
+    @staticmethod
+    def steps(obs):
+        return [p.strip() for p in obs.split(" | ") if p.strip().startswith("ret=")]
+
+    def nontrivial(self, line, obs):
+        """at least one call reached the handler / the wire, or was refused"""
+        return any(" c=-" not in p and " c=" in p or " w=-" not in p and " w=" in p or p.startswith("ret=err.") for p in self.steps(obs))
+
     def finding_key(self, line, obs, so):
         return "fe:" + (so.split()[1] if so and so.startswith("spec-fail") and len(so.split()) > 1 else "?")
